@@ -237,9 +237,12 @@ impl StreamAlphaNode {
                 WindowType::Tumbling => {
                     let window_start = (current_time / window_duration_ms) * window_duration_ms;
 
-                    // If we've moved to a new window, clear old events
+                    // If we've moved to a new window, drop the events of the old
+                    // windows (the event that was just accepted belongs to the new
+                    // window and must be kept)
                     if self.last_window_start != 0 && window_start != self.last_window_start {
-                        self.events.clear();
+                        self.events
+                            .retain(|event| event.metadata.timestamp >= window_start);
                         self.last_window_start = window_start;
                     } else if self.last_window_start == 0 {
                         self.last_window_start = window_start;
